@@ -48,6 +48,12 @@ def exnCode1 (w : World τ) (e : ExnId) : List Int :=
   | .activityLeak => [13]
   | .reuse => [14]
   | .ignoredExit => [15]
+  | .pyInterrupt c => [16, c]
+  | .pyTriggeredTwice => [17]
+  | .stopSimulation => [18]
+  | .stopIterationLeak => [19]
+  | .stopIteration v => [20, v]
+  | .nameError => [21]
 
 /-- a stable, implementation-independent description of an exception object for the trace -/
 def exnCode (w : World τ) (e : ExnId) : List Int :=
@@ -226,7 +232,279 @@ def markClosing : List (Frame τ) → Option ExnId → List (Frame τ)
   | .firstEnd false none :: fs, pending => .firstEnd true pending :: fs
   | f :: fs, pending => f :: markClosing fs pending
 
+
 def tArgs (t : τ) : List Int := [(toPair t).1, (toPair t).2]
+
+/-! ### usim.py - the SimPy compatibility layer (usim/py/core.py, events.py) -/
+
+def pyEv (w : World τ) (e : Nat) : PyEvent := w.py.events.getD e default
+def pyProc (w : World τ) (p : Nat) : PyProc τ := w.py.procs.getD p default
+def setPyEv (w : World τ) (e : Nat) (f : PyEvent → PyEvent) : World τ :=
+  { w with py := { w.py with events := w.py.events.modify e f } }
+def setPyProc (w : World τ) (p : Nat) (f : PyProc τ → PyProc τ) : World τ :=
+  { w with py := { w.py with procs := w.py.procs.modify p f } }
+def pyBind (w : World τ) (x : Name) (e : Nat) : World τ :=
+  { w with py := { w.py with names := (x, e) :: w.py.names.filter (·.1 != x) } }
+
+/-- a new `usim.Flag` -/
+def newFlag (w : World τ) : World τ × CondId :=
+  let c := w.conds.size
+  let (w, _) := w.newCond (.flag false (c + 1))
+  let (w, _) := w.newCond (.invFlag c)
+  (w, c)
+
+/-- `flag._value = True; flag.__trigger__()` (events.py: direct manipulation of the Flag) -/
+def flagForceSet (w : World τ) (c : CondId) : World τ :=
+  match (w.cond c).kind with
+  | .flag _ inv => (w.setCond c (fun x => { x with kind := .flag true inv })).awakeAll c
+  | _ => w
+
+/-- `Scope.do(coroutine, after=delay)` on the environment's scope (context.py:168-199); `false` = ScopeClosed -/
+def pyScopeDo (w : World τ) (sid : ScopeId) (prog : List (Stmt τ)) (after : Option τ) : World τ × Bool :=
+  if !(w.scope sid).interruptable then (w, false)
+  else
+    let tid := w.tasks.size
+    let dc := w.conds.size
+    let (w, _) := w.newCond (.done tid false (dc + 1))
+    let (w, _) := w.newCond (.notDone dc)
+    let (w, r) := w.newAct [.taskStart tid after none prog, .coroutineEnd] false (-2)
+    let tk : Task := { runner := r, parent := sid, volatile := false, done := dc, quiet := true }
+    let w := { w with tasks := w.tasks.push tk }
+    let w := w.scheduleNow r none
+    (w.setScope sid (fun x => { x with children := x.children ++ [tid] }), true)
+
+/-- `Environment.schedule(coroutine, delay)` (core.py:207-235): queued until the loop is known -/
+def pySchedule (w : World τ) (prog : List (Stmt τ)) (delay : Option τ) : World τ × Bool :=
+  let delay := match delay with
+    | some d => if beq d (zero : τ) then none else some d
+    | none => none
+  match w.py.scope with
+  | none => ({ w with py := { w.py with startup := w.py.startup ++ [(prog, delay)] } }, true)
+  | some sid => w.pyScopeDo sid prog delay
+
+/-- `Event.__init__` -/
+def pyNewEvent (w : World τ) (kind : PyKind) : World τ × Nat :=
+  let (w, f) := w.newFlag
+  let e := w.py.events.size
+  ({ w with py := { w.py with events := w.py.events.push { flag := f, kind := kind } } }, e)
+
+/-- `Event._trigger` (events.py:165-169): wake the waiters, schedule the callbacks -/
+def pyTrigger (w : World τ) (e : Nat) : World τ × Bool :=
+  let w := w.flagForceSet (w.pyEv e).flag
+  w.pySchedule [.pyInvokeCallbacks e] none
+
+/-- `Event.succeed` / `Event.fail` / `Event.trigger`: `some cls` = the exception the call raises -/
+def pySetValue (w : World τ) (e : Nat) (val : Int × Option ExnId) (cvalue : List Nat := []) : World τ × Option ExnCls :=
+  if (w.pyEv e).value.isSome then (w, some .pyTriggeredTwice)
+  else
+    let w := w.setPyEv e (fun x => { x with value := some val, cvalue := cvalue })
+    let (w, ok) := w.pyTrigger e
+    (w, if ok then none else some .scopeClosed)
+
+/-- `Process.interrupt(cause)` / `InterruptQueue.push` -/
+def pyInterrupt (w : World τ) (p : Nat) (cause : Int) : World τ :=
+  let pr := w.pyProc p
+  if (w.pyEv pr.event).value.isSome then w
+  else
+    let w := w.setPyProc p (fun x => { x with causes := x.causes ++ [cause] })
+    if !(w.eval pr.iflag) then w.flagForceSet pr.iflag else w
+
+/-- what a probe / a receiver reports about a value or failure: `[0, v]`, `[1, code..]`, `[2, members..]` -/
+def pyValueCode (w : World τ) (e : Nat) : List Int :=
+  match (w.pyEv e).value with
+  | none => [3]
+  | some (_, some x) => 1 :: w.exnCode1 x
+  | some (v, none) =>
+    match (w.pyEv e).kind with
+    | .condition _ _ => 2 :: (w.pyEv e).cvalue.map (fun (m : Nat) => (m : Int))
+    | _ => [0, v]
+
+/-- `Condition._flatten_values` -/
+def pyFlatten (w : World τ) : Nat → List Nat → List Nat
+  | 0, _ => []
+  | fuel + 1, events => events.flatMap (fun e =>
+      match (w.pyEv e).kind with
+      | .condition _ ms => pyFlatten w fuel ms
+      | _ => match (w.pyEv e).value with
+        | some (_, none) => [e]
+        | _ => [])
+
+/-- one synchronous SimPy API call made by code with trace label `lbl`; `some cls` = it raises -/
+def pySync (w : World τ) (a : ActId) (lbl : Int) : PyInstr τ → World τ × Option ExnCls
+  | .log k => (w.emitAs a lbl "log" [k], none)
+  | .newEvent x =>
+    let (w, e) := w.pyNewEvent .plain
+    ((w.pyBind x e).emitAs a lbl "pynew" [(e : Int), (x : Int), 0], none)
+  | .newTimeout x d v =>
+    if lt d (zero : τ) then (w, some .valueError)
+    else
+      let (w, e) := w.pyNewEvent .timeout
+      let w := w.emitAs a lbl "pynew" ([(e : Int), (x : Int), 1] ++ tArgs d ++ [v])
+      let (w, ok) := w.pySchedule [.pySleep d, .pyTimeoutFire e v] none
+      (w.pyBind x e, if ok then none else some .scopeClosed)
+  | .newProc x code =>
+    let p := w.py.procs.size
+    let (w, e) := w.pyNewEvent (.process p)
+    let (w, f) := w.newFlag
+    let w := { w with py := { w.py with procs := w.py.procs.push { event := e, code := code, iflag := f } },
+                      flagIds := w.flagIds ++ [(200000 + p, f)] }
+    let w := w.emitAs a lbl "pynew" [(e : Int), (x : Int), 2, (p : Int)]
+    let (w, ok) := w.pySchedule [.pyRunPayload p] none
+    (w.pyBind x e, if ok then none else some .scopeClosed)
+  | .newCond x isAll members =>
+    match members.mapM (fun m => lookup w.py.names m) with
+    | none => (w, some .nameError)
+    | some ms =>
+      let (w, e) := w.pyNewEvent (.condition isAll ms)
+      let w := w.emitAs a lbl "pynew" ([(e : Int), (x : Int), if isAll then 3 else 4] ++ ms.map (fun (m : Nat) => (m : Int)))
+      let (w, ok) := w.pySchedule [.pyCheckEvents e] none
+      (w.pyBind x e, if ok then none else some .scopeClosed)
+  | .succeed x v =>
+    match lookup w.py.names x with
+    | none => (w, some .nameError)
+    | some e =>
+      match w.pySetValue e (v, none) with
+      | (w, some .pyTriggeredTwice) => (w.emitAs a lbl "twice" [x], none)
+      | (w, none) => (w.emitAs a lbl "pytrig" [(e : Int), 1, v], none)
+      | r => r
+  | .fail x cls =>
+    match lookup w.py.names x with
+    | none => (w, some .nameError)
+    | some e =>
+      if (w.pyEv e).value.isSome then (w.emitAs a lbl "twice" [x], none)
+      else
+        let (w, exn) := w.newExn (.user cls w.userRaises)
+        let (w, r) := ({ w with userRaises := w.userRaises + 1 }).pySetValue e (0, some exn)
+        (if r.isNone then w.emitAs a lbl "pytrig" ([(e : Int), 0] ++ w.exnCode1 exn) else w, r)
+  | .trigger x y =>
+    match lookup w.py.names x, lookup w.py.names y with
+    | some e, some src =>
+      -- `assert self._value is None`; `self._value = event._value`; `self._trigger()`
+      if (w.pyEv e).value.isSome then (w, some (.assertion 9))
+      else match (w.pyEv src).value with
+        | some val => w.pySetValue e val (w.pyEv src).cvalue
+        | none =>
+          -- (copies `None`: the event counts as triggered without a value)
+          let (w, ok) := w.pyTrigger e
+          (w, if ok then none else some .scopeClosed)
+    | _, _ => (w, some .nameError)
+  | .interrupt x cause =>
+    match lookup w.py.names x with
+    | none => (w, some .nameError)
+    | some e =>
+      match (w.pyEv e).kind with
+      | .process p => ((w.pyInterrupt p cause).emitAs a lbl "pyintr" [(p : Int), cause], none)
+      | _ => (w, some .nameError)
+  | .addCallback x k =>
+    match lookup w.py.names x with
+    | none => (w, some .nameError)
+    | some e =>
+      match (w.pyEv e).callbacks with
+      | some cbs => ((w.setPyEv e (fun ev => { ev with callbacks := some (cbs ++ [.log k]) })).emitAs a lbl "addcb" [(e : Int), k], none)
+      | none => (w.emitAs a lbl "latecb" [x, k], none)
+  | .probe x =>
+    match lookup w.py.names x with
+    | none => (w, some .nameError)
+    | some e =>
+      let ev := w.pyEv e
+      (w.emitAs a lbl "pystate" ([(x : Int), if w.eval ev.flag then 1 else 0, if ev.callbacks.isNone then 1 else 0,
+        if (match ev.value with | some (_, none) => true | _ => false) then 1 else 0] ++ w.pyValueCode e), none)
+  | _ => (w, none)
+
+/-- `Process._wait_interruptible(event, interrupts)` for an `Event` (events.py:456-478) -/
+def pyWaitInterruptible (w : World τ) (a : ActId) (fs : List (Frame τ)) (p : Nat) (e : Nat) : World τ :=
+  let ev := w.pyEv e
+  if ev.callbacks.isSome then
+    -- `if not event.processed: await (event.__usimpy_flag__ | interrupts.__usimpy_flag__)`
+    let (w, c) := w.newCond (.any [ev.flag, (w.pyProc p).iflag])
+    w.doCondAwait a (.pyWaited p e :: fs) c
+  else w.retTo a (.pyWaited p e :: fs) .unit
+
+/-- resume the generator of process `p`: `send(value)` / `throw(exception)`; the generator logs what it gets -/
+def pyResume (w : World τ) (a : ActId) (fs : List (Frame τ)) (p : Nat) (what : List Int) (exn : Option ExnId) : World τ :=
+  let pr := w.pyProc p
+  let w := w.emitAs a (5000 + (p : Int)) "recv" ((pr.step : Int) :: what)
+  match exn with
+  | none => w.retTo a (.pyGen p :: fs) .unit
+  | some x => if pr.catching then w.retTo a (.pyGen p :: fs) .unit else w.raiseTo a fs x
+
+/-- the loop of `Condition._check_events` from its `while` on -/
+def pyCheckContinue (w : World τ) (a : ActId) (fs : List (Frame τ)) (e : Nat) (unobserved : List Nat) (observed : Nat) : World τ :=
+  match (w.pyEv e).kind with
+  | .condition isAll members =>
+    let evaluate : Bool := if isAll then members.length == observed else (observed != 0 || members.isEmpty)
+    if !unobserved.isEmpty && !evaluate then
+      let (w, c) := w.newCond (.any (unobserved.map (fun m => (w.pyEv m).flag)))
+      w.doCondAwait a (.pyCheckLoop e unobserved observed :: fs) c
+    else if evaluate then
+      match w.pySetValue e (0, none) (w.pyFlatten 64 members) with
+      | (w, some cls) => w.raiseNew a fs cls
+      | (w, none) => w.retTo a fs .unit
+    else w.retTo a fs .unit
+  | _ => w.retTo a fs .unit
+
+/-- scan of the events that may have triggered (both passes of `_check_events` share it): the
+remaining unobserved events and count, or the failed event that makes the condition fail -/
+def pyScan (w : World τ) : List Nat → List Nat → Nat → (List Nat × Nat) ⊕ Nat
+  | [], un, obs => .inl (un.reverse, obs)
+  | m :: ms, un, obs =>
+    if !(w.eval (w.pyEv m).flag) then pyScan w ms (m :: un) obs
+    else match (w.pyEv m).value with
+      | some (_, none) => pyScan w ms un (obs + 1)
+      | _ => .inr m
+
+/-- a member failed: `event.defused = True; self.fail(event.value)` -/
+def pyCondFail (w : World τ) (a : ActId) (fs : List (Frame τ)) (e : Nat) (m : Nat) : World τ :=
+  let w := w.setPyEv m (fun x => { x with defused := true })
+  match (w.pyEv m).value with
+  | some (_, some x) =>
+    (match w.pySetValue e (0, some x) with
+     | (w, some cls) => w.raiseNew a fs cls
+     | (w, none) => w.retTo a fs .unit)
+  | _ =>
+    -- triggered without a value (`trigger` of an untriggered event): `event.ok` is False, `event.value` raises
+    w.raiseNew a fs .nameError
+
+/-- run the generator of process `p` up to its next `yield` / end (frames `fs` = the caller in `_run_payload`) -/
+def pyGenStep (w : World τ) (a : ActId) (fs : List (Frame τ)) (p : Nat) : World τ :=
+  let pr := w.pyProc p
+  let lbl : Int := 5000 + (p : Int)
+  match pr.code with
+  | [] => w.raiseNew a fs (.stopIteration (-9))                        -- falls off the end: `None` (written -9)
+  | i :: rest =>
+    let w := w.setPyProc p (fun x => { x with code := rest })
+    match i with
+    | .ret v => w.raiseNew a fs (.stopIteration v)
+    | .raise cls => ({ w with userRaises := w.userRaises + 1 }).raiseNew a fs (.user cls w.userRaises)
+    | .yieldEv x catching =>
+      (match lookup w.py.names x with
+       | none => w.raiseNew a fs .nameError
+       | some e =>
+         ((w.setPyProc p (fun y => { y with catching := catching, step := y.step + 1 })).emitAs a lbl "pyyield"
+           [(pr.step + 1 : Nat), (e : Int), 0, 0]).retTo a fs (.int e))
+    | .yieldTimeout d v catching =>
+      if lt d (zero : τ) then w.raiseNew a fs .valueError
+      else
+        let (w, e) := w.pyNewEvent .timeout
+        let w := w.emitAs a lbl "pynew" ([(e : Int), -1, 1] ++ tArgs d ++ [v])
+        let (w, ok) := w.pySchedule [.pySleep d, .pyTimeoutFire e v] none
+        if ok then
+          ((w.setPyProc p (fun y => { y with catching := catching, step := y.step + 1 })).emitAs a lbl "pyyield"
+            [(pr.step + 1 : Nat), (e : Int), 0, 0]).retTo a fs (.int e)
+        else w.raiseNew a fs .scopeClosed
+    | .yieldNative n catching =>
+      let w := w.setPyProc p (fun y =>
+        { y with catching := catching, step := y.step + 1, native := some n, nativeCoro := none, nativeDone := false, nativeExn := none })
+      (w.emitAs a lbl "pyyield" [(pr.step + 1 : Nat), -1, 0, 0]).retTo a fs .unit
+    | .yieldCoro d v failCls catching =>
+      let w := w.setPyProc p (fun y =>
+        { y with catching := catching, step := y.step + 1, native := none, nativeCoro := some (d, v, failCls), nativeDone := false, nativeExn := none })
+      (w.emitAs a lbl "pyyield" [(pr.step + 1 : Nat), -1, 0, 0]).retTo a fs .unit
+    | i =>
+      match w.pySync a lbl i with
+      | (w, none) => w.retTo a (.pyGen p :: fs) .unit
+      | (w, some cls) => w.raiseNew a fs cls
+
 
 /-- what an `until(..)` scope listens to, for traces: 0 plain scope, 1 delay, 2 `>=`, 3 `==`, 4 `<`,
 5 flag, 6 inverted flag, 9 anything else -/
@@ -500,6 +778,104 @@ def execStmt (w : World τ) (a : ActId) (fs : List (Frame τ)) : Stmt τ → Wor
     let spawns := (progs.zip names).map (fun p => Stmt.spawn base p.2 p.1 none none false)
     let w := { w with freshName := base + progs.length + 1 }
     w.retTo a (.seq [.scope base none spawns] :: .collectAwait names [] :: fs) .unit
+  | .pyUntil initial untilWhat setup =>                               -- core.py Environment.until
+    let envName := w.freshName
+    let w := { w with freshName := envName + 1, py := { w.py with initial := some initial, scopeName := envName } }
+    let w := w.emit a "pyuntil" ((match untilWhat with
+      | .none => [0, 0, 1]
+      | .time t => 1 :: tArgs t
+      | .event x => [2, x, 1]) ++ tArgs initial)
+    w.retTo a (.pyCode setup :: .seq [.scope envName none [.pyStartup, .pyUntilBody untilWhat]] :: .pyUntilEnd :: fs) .unit
+  | .pyWith initial setup body =>                                      -- `async with env:`
+    let envName := w.freshName
+    let w := { w with freshName := envName + 1, py := { w.py with initial := some initial, scopeName := envName } }
+    let w := w.emit a "pyuntil" ([3, 0, 1] ++ tArgs initial)
+    w.retTo a (.pyCode setup :: .seq [.scope envName none (.pyStartup :: body)] :: .pyWithEnd :: fs) .unit
+  | .pyStartup =>                                                      -- core.py Environment.__aenter__ (after `_scope.__aenter__`)
+    match lookup w.scopeNames w.py.scopeName with
+    | none => w.retTo a fs .unit
+    | some sid =>
+      let w := w.setScope sid (fun x => { x with env := true })
+      let w := { w with py := { w.py with scope := some sid } }
+      let spawnAll (w : World τ) : World τ :=
+        let st := w.py.startup
+        let w := { w with py := { w.py with startup := [] } }
+        st.foldl (fun w (pd : List (Stmt τ) × Option τ) => (w.pyScopeDo sid pd.1 pd.2).1) w
+      match w.py.initial with
+      | some t0 =>
+        if lt w.time t0 then
+          match w.buildCond (.moment t0) with
+          | some (w, c) => w.doCondAwait a (.seq [.pyStartup] :: fs) c
+          | none => w.retTo a fs .unit
+        else (spawnAll w).retTo a fs .unit
+      | none => (spawnAll w).retTo a fs .unit
+  | .pyUntilBody untilWhat =>
+    match untilWhat with
+    | .none => w.retTo a fs .unit
+    | .event x =>
+      match lookup w.py.names x with
+      | none => w.raiseNew a fs .nameError
+      | some e => w.doCondAwait a (.raiseStop :: fs) (w.pyEv e).flag
+    | .time t =>
+      if lt t w.time then w.raiseNew a fs .valueError
+      else match w.buildCond (.after t) with
+        | some (w, c) => w.doCondAwait a (.raiseStop :: fs) c
+        | none => w.retTo a fs .unit
+  | .pyDo i =>
+    let lbl := (w.acts.getD a default).label
+    (match w.pySync a lbl i with
+     | (w, none) => w.retTo a fs .unit
+     | (w, some cls) => w.raiseNew a fs cls)
+  | .pyAwait x =>                                                      -- events.py Event.__await__
+    match lookup w.py.names x with
+    | none => w.raiseNew a fs .nameError
+    | some e => w.doCondAwait a (.pyAwaited e :: fs) (w.pyEv e).flag
+  | .pyRunPayload p =>                                                 -- events.py Process._run_payload: `generator.send(None)`
+    w.retTo a (.pyGen p :: .pyPayloadStart p :: fs) .unit
+  | .pySleep d =>
+    if lt d (zero : τ) then w.raiseNew a fs (.assertion 3)
+    else if beq d (zero : τ) then w.doPostpone a fs
+    else
+      let (w, c) := w.newCond (.delay d)
+      w.doNotifAwait a fs c
+  | .pyTimeoutFire e v =>
+    (match w.pySetValue e (v, none) with
+     | (w, none) => w.retTo a fs .unit
+     | (w, some cls) => w.raiseNew a fs cls)
+  | .pyInvokeCallbacks e =>                                            -- events.py Event._invoke_callbacks
+    let ev := w.pyEv e
+    match ev.value, ev.callbacks with
+    | some (_, exn), some cbs =>
+      let w := w.setPyEv e (fun x => { x with callbacks := none })
+      let w := cbs.foldl (fun w cb => match cb with
+        | .log k => w.emitAs a (4000 + (e : Int)) "cb" [k]) w
+      (match exn with
+       | some x => if (w.pyEv e).defused then w.retTo a fs .unit else w.raiseTo a fs x
+       | none => w.retTo a fs .unit)
+    | _, _ => if w.cfg.debug then w.raiseNew a fs (.assertion 10) else w.retTo a fs .unit
+  | .pyNativeAwait n =>
+    (match n with
+     | .delay d =>
+       if lt d (zero : τ) then w.raiseNew a fs (.assertion 3)
+       else if beq d (zero : τ) then w.doPostpone a fs
+       else
+         let (w, c) := w.newCond (.delay d)
+         w.doNotifAwait a fs c
+     | .cond c =>
+       match w.buildCond c with
+       | some (w, cid) => w.doCondAwait a fs cid
+       | none => w.raiseNew a fs .notImplemented)
+  | .pyNativeDone p => (w.setPyProc p (fun x => { x with nativeDone := true })).retTo a fs .unit
+  | .pyNativeFail p cls =>
+    let (w, x) := w.newExn (.user cls w.userRaises)
+    (({ w with userRaises := w.userRaises + 1 }).setPyProc p (fun y => { y with nativeDone := true, nativeExn := some x })).retTo a fs .unit
+  | .pyCheckEvents e =>                                                -- events.py Condition._check_events
+    (match (w.pyEv e).kind with
+     | .condition _ members =>
+       (match w.pyScan members [] 0 with
+        | .inl (un, obs) => w.pyCheckContinue a fs e un obs
+        | .inr m => w.pyCondFail a fs e m)
+     | _ => w.retTo a fs .unit)
   | .nestedRun progs start =>                                          -- usim.run(...) inside an activity
     let sv : Saved τ := { time := w.time, turn := w.turn, pending := w.pending, queue := w.queue, ctl := w.ctl }
     let w := w.setFrames a (.nestedRun :: fs)
@@ -702,6 +1078,85 @@ def stepRet (w : World τ) (a : ActId) (f : Frame τ) (fs : List (Frame τ)) (v 
     match closing, pending with
     | true, some e => (w.emit a "fabort" []).raiseTo a fs e
     | _, _ => (w.emit a "fend" []).retTo a fs .unit
+  | .raiseStop => w.raiseNew a fs .stopSimulation
+  | .pyCode code =>
+    (match code with
+     | [] => w.retTo a fs .unit
+     | i :: rest =>
+       match w.pySync a (w.acts.getD a default).label i with
+       | (w, none) => w.retTo a (.pyCode rest :: fs) .unit
+       | (w, some cls) => w.raiseNew a fs cls)
+  | .pyGen p => w.pyGenStep a fs p
+  | .pyPayloadStart p | .pyPayloadLoop p =>                            -- `self.target = event = generator.send(..)`
+    (match v with
+     | .int e =>
+       let e := e.toNat
+       (w.setPyProc p (fun x => { x with target := some e })).pyWaitInterruptible a fs p e
+     | _ =>
+       -- an awaitable that is not an Event: `AwaitableEvent(event).wait_interruptible(interrupts.__usimpy_flag__)`
+       let sc := w.freshName
+       match (w.pyProc p).native, (w.pyProc p).nativeCoro with
+       | some n, _ =>
+         let w := { w with freshName := sc + 1 }
+         w.retTo a (.seq [.scope sc (some (.cond (.flag (200000 + p)))) [.pyNativeAwait n, .pyNativeDone p]] :: .pyNativeWaited p :: fs) .unit
+       | none, some (d, _, failCls) =>
+         let w := { w with freshName := sc + 1 }
+         w.retTo a (.seq [.scope sc (some (.cond (.flag (200000 + p))))
+           [.pySleep d, match failCls with | some c => .pyNativeFail p c | none => .pyNativeDone p]] :: .pyNativeWaited p :: fs) .unit
+       | none, none => w.raiseNew a fs (.assertion 11))
+  | .pyWaited p e =>                                                   -- events.py:472-478, 436-449
+    let pr := w.pyProc p
+    (match pr.causes with
+     | cause :: rest =>
+       -- `event = interrupts; self.target = None`; `interrupts.ok` is False: `generator.throw(Interrupt(pop()))`
+       let w := w.setPyProc p (fun x => { x with causes := rest, target := none })
+       let w := if rest.isEmpty then
+           w.setCond pr.iflag (fun x => match x.kind with
+             | .flag _ inv => { x with kind := .flag false inv }
+             | _ => x)
+         else w
+       let (w, x) := w.newExn (.pyInterrupt cause)
+       w.pyResume a (.pyPayloadLoop p :: fs) p [1, 16, cause] (some x)
+     | [] =>
+       match (w.pyEv e).value with
+       | some (_, none) => w.pyResume a (.pyPayloadLoop p :: fs) p (w.pyValueCode e) none
+       | some (_, some x) =>
+         (w.setPyEv e (fun y => { y with defused := true })).pyResume a (.pyPayloadLoop p :: fs) p (1 :: w.exnCode1 x) (some x)
+       | none => w.raiseNew a (.pyPayloadLoop p :: fs) .nameError)
+  | .pyNativeWaited p =>
+    let pr := w.pyProc p
+    if pr.nativeDone then
+      -- `event.ok`: `generator.send(event.value)` - a Delay gives None (-9), conditions and Instant give True
+      let res : Int := match pr.native, pr.nativeCoro with
+        | some (.delay d), _ => if gt d (zero : τ) then -9 else 1
+        | none, some (_, v, _) => v
+        | _, _ => 1
+      match pr.nativeExn with
+      | some x => w.pyResume a (.pyPayloadLoop p :: fs) p (1 :: w.exnCode1 x) (some x)
+      | none => w.pyResume a (.pyPayloadLoop p :: fs) p [0, res] none
+    else
+      match pr.causes with
+      | cause :: rest =>
+        let w := w.setPyProc p (fun x => { x with causes := rest })
+        let w := if rest.isEmpty then
+            w.setCond pr.iflag (fun x => match x.kind with
+              | .flag _ inv => { x with kind := .flag false inv }
+              | _ => x)
+          else w
+        let (w, x) := w.newExn (.pyInterrupt cause)
+        w.pyResume a (.pyPayloadLoop p :: fs) p [1, 16, cause] (some x)
+      | [] => w.raiseNew a (.pyPayloadLoop p :: fs) (.assertion 12)
+  | .pyUntilEnd | .pyWithEnd => (w.emit a "pydone" []).retTo a fs .unit
+  | .pyAwaited e =>
+    (match (w.pyEv e).value with
+     | some (_, none) => (w.emit a "pygot" (w.pyValueCode e)).retTo a fs .unit
+     | some (_, some x) =>
+       ((w.setPyEv e (fun y => { y with defused := true })).emit a "pygot" (1 :: w.exnCode1 x)).retTo a fs .unit
+     | none => w.raiseNew a fs .nameError)
+  | .pyCheckLoop e unobserved observed =>
+    (match w.pyScan unobserved [] observed with
+     | .inl (un, obs) => w.pyCheckContinue a fs e un obs
+     | .inr m => w.pyCondFail a fs e m)
   | .collectAwait todo acc =>
     let acc := match v with
       | .int i => acc ++ [i]
@@ -822,6 +1277,27 @@ def stepRaise (w : World τ) (a : ActId) (f : Frame τ) (fs : List (Frame τ)) (
       | some e' => (w.emit a "fabort" []).raiseTo a fs e'
       | none => (w.emit a "fend" []).retTo a fs .unit
     else (w.emit a "fabort" []).raiseTo a fs e
+  | .raiseStop | .pyCode _ | .pyGen _ | .pyWaited .. | .pyNativeWaited _ | .pyAwaited _ | .pyCheckLoop .. | .pyWithEnd => w.raiseTo a fs e
+  | .pyPayloadStart p | .pyPayloadLoop p =>
+    -- (the first `generator.send(None)` has the same handlers as the loop's `try`: finding F15, repaired)
+    let ev := (w.pyProc p).event
+    let w := w.emitAs a (5000 + (p : Int)) "pyend" (match w.exn e with
+      | .stopIteration v => [0, v]
+      | _ => 1 :: w.exnCode1 e)
+    (match w.exn e with
+     | .stopIteration v =>                                             -- `self.succeed(value)`; `break`
+       (match w.pySetValue ev (v, none) with
+        | (w, none) => w.retTo a fs .unit
+        | (w, some cls) => w.raiseNew a fs cls)
+     | _ =>                                                            -- `self.fail(err)`; `break`
+       (match w.pySetValue ev (0, some e) with
+        | (w, none) => w.retTo a fs .unit
+        | (w, some cls) => w.raiseNew a fs cls))
+  | .pyUntilEnd =>                                                     -- core.py:137-140
+    (match w.exn e with
+     | .concurrent (c :: _) => w.raiseTo a fs c
+     | .stopSimulation => (w.emit a "pydone" []).retTo a fs .unit
+     | _ => w.raiseTo a fs e)
   | .borrowMark r => (w.emit a "bexit" [r, 1]).raiseTo a fs e
   | .borrowBody r b =>                                                 -- BorrowedResources.__aexit__ with an exception
     let w := w.emit a "bbody" [1]
